@@ -19,7 +19,15 @@ PROJECT = dict(
              'ghost("n_site_frame-columns-are-the-requested-ones") == 1 and ghost("n_site_domain-projected-as-requested") == 1 and '
              'ghost("n_site_result-domain-is-the-projected-domain") == 1'},
 )
-ITEMS = [('src/mbi/dataset.py', 'Dataset.project', PROJECT)]
+# Dataset.__init__: whatever frame is passed in, the stored frame has exactly the domain's attributes as columns, in the domain's
+# order (datavector bins the frame's columns positionally against domain.shape)
+INIT = dict(
+    params=dict(self='obj:Dataset', df='obj:', domain='obj:Domain', weights='obj:'), requires=[],
+    pure={'set': 'obj'},
+    ensures={'stored-frame-is-the-selection-of-the-domain-columns-in-domain-order': 'same(self.df, df.loc[:, domain.attrs])',
+             'domain-and-weights-stored-as-given': 'same(self.domain, domain) and same(self.weights, weights)'},
+)
+ITEMS = [('src/mbi/dataset.py', 'Dataset.project', PROJECT), ('src/mbi/dataset.py', 'Dataset.__init__', INIT)]
 
 
 def hooks_for(c):
